@@ -29,6 +29,69 @@ def _progress_methods(ctx):
             yield f
 
 
+
+def _call_args_for_param(ctx, f, pname):
+    """[(caller FuncInfo, call node, argument expr or None)] for every resolved call of f."""
+    cg, _ = get_cg(ctx)
+    out = []
+    params = f.params[1:] if f.cls is not None and not f.is_staticmethod else f.params
+    for e in cg.inc.get(f.fq, []):
+        if e.kind not in ("call", "dispatch") or not isinstance(e.node, ast.Call):
+            continue
+        c = e.node
+        arg = None
+        for k in c.keywords:
+            if k.arg == pname:
+                arg = k.value
+        if arg is None and pname in params:
+            i = params.index(pname)
+            if i < len(c.args):
+                arg = c.args[i]
+        out.append((e.caller, c, arg))
+    return out
+
+
+def _timestamp_ok(ctx, f, call_or_stmt, ts, depth=0):
+    """(ok, [problems]) - is the timestamp expression `ts`, used at `call_or_stmt` in f, a clock reading taken under Progress._lock?"""
+    cg, locks = get_cg(ctx)
+    if depth > 3:
+        return False, ["timestamp provenance too deep to follow"]
+    if isinstance(ts, ast.Call) and "get_time" in norm(ts):
+        held = must_held(ctx, f, ts)
+        return (PLOCK in held), ([] if PLOCK in held else [f"clock read `{short(ts)}` in {f.qualname} is outside Progress._lock"])
+    if not isinstance(ts, ast.Name):
+        return False, [f"timestamp `{norm(ts)}` is not a clock reading"]
+    g = cfgmod.build(f.node)
+    rd = g.reaching_defs(weak=False)
+    st = call_or_stmt
+    while not isinstance(st, ast.stmt):
+        st = f.module.parent_of[st]
+    defs = set()
+    for nid in g.nodes_of(st):
+        defs |= rd.get(nid, {}).get(ts.id, set())
+    bad = []
+    for d in defs:
+        dn = g.nodes[d]
+        if dn.kind == "entry":
+            sites = _call_args_for_param(ctx, f, ts.id)
+            if not sites:
+                bad.append(f"`{ts.id}` is a parameter of {f.qualname}, which has no resolved caller")
+            for caller, c, arg in sites:
+                if arg is None:
+                    bad.append(f"{caller.qualname} does not pass `{ts.id}`")
+                    continue
+                ok, probs = _timestamp_ok(ctx, caller, c, arg, depth + 1)
+                bad += probs
+            continue
+        v = getattr(dn.stmt, "value", None)
+        if v is None or "get_time" not in norm(v):
+            bad.append(f"`{ts.id}` defined by `{short(dn.stmt)}`, not a clock reading")
+            continue
+        dheld = locks.held_lex(f, dn.stmt) | locks.must_held_on_entry().get(f.fq, frozenset())
+        if PLOCK not in dheld:
+            bad.append(f"clock read `{short(dn.stmt)}` at line {dn.lineno} of {f.qualname} happens before Progress._lock is taken")
+    return (not bad), bad
+
 def r12_1(ctx):
     ctx.rule("R12.1", "guarded-by: every read/write of a Task's counters and of Progress._tasks/_task_index in Progress methods (and helpers reached only from them) executes with Progress._lock held, lexically or on entry from every non-constructor caller")
     cg, locks = get_cg(ctx)
@@ -67,48 +130,86 @@ def r12_1(ctx):
 
 
 def r12_2(ctx):
-    ctx.rule("R12.2", "speed samples are timestamped inside the critical section: the timestamp of every appended ProgressSample is defined by a get_time() call located in the same Progress._lock region as the append (otherwise two threads can append out of time order => negative speed)")
+    ctx.rule("R12.2", "speed samples are timestamped inside the critical section: the timestamp of every appended ProgressSample is a get_time() reading taken with Progress._lock held - in the method itself or, when the append lives in a helper, at every call site of that helper (otherwise two threads can append out of time order => negative speed)")
     cg, locks = get_cg(ctx)
     n = 0
     for f in _progress_methods(ctx):
-        aliases = alias_map(f.node)
-        g = None
         for x in walk_local(f.node):
             if not (isinstance(x, ast.Call) and call_name(x) == "ProgressSample"):
+                continue
+            n += 1
+            ts = x.args[0] if x.args else None
+            where = f"{f.module.relpath}:{x.lineno}"
+            held_here = must_held(ctx, f, x)
+            ok, bad = _timestamp_ok(ctx, f, x, ts) if ts is not None else (False, ["no timestamp"])
+            ctx.check(PLOCK in held_here and ok, f.fq, short(x), where, "sample timestamp read inside the lock region that appends it",
+                      "speed sample is appended under the lock but " + "; ".join(bad or ["the append itself is outside Progress._lock"]) + ": two racing calls can append samples out of time order, making total_time and the speed estimate negative")
+    ctx.floor(n, 1, "ProgressSample appends")
+
+
+def r12_6(ctx):
+    ctx.rule("R12.6", "speed samples are non-negative: the amount of every appended ProgressSample is either dominated by a `> 0` test or is the difference task.completed - completed_start around a single `task.completed += <advance parameter>` (non-negative for non-negative advances); so a completed count set lower by update() never enters the speed window as a negative sample")
+    n = 0
+    for f in _progress_methods(ctx):
+        g = None
+        for x in walk_local(f.node):
+            if not (isinstance(x, ast.Call) and call_name(x) == "ProgressSample" and len(x.args) >= 2):
                 continue
             n += 1
             if g is None:
                 g = cfgmod.build(f.node)
                 rd = g.reaching_defs(weak=False)
-            ts = x.args[0] if x.args else None
-            where = f"{f.module.relpath}:{x.lineno}"
-            if not isinstance(ts, ast.Name):
-                ok = isinstance(ts, ast.Call) and "get_time" in norm(ts) and PLOCK in must_held(ctx, f, x)
-                ctx.check(ok, f.fq, short(x), where, "timestamp read inline under the lock", f"sample timestamp `{norm(ts) if ts is not None else None}` is not a clock reading taken under Progress._lock")
-                continue
+            amt = x.args[1]
             st = x
             while not isinstance(st, ast.stmt):
                 st = f.module.parent_of[st]
-            held_here = locks.held_lex(f, x) | locks.must_held_on_entry().get(f.fq, frozenset())
-            defs: Set[int] = set()
+            where = f"{f.module.relpath}:{x.lineno}"
+            ok = False
+            why = ""
             for nid in g.nodes_of(st):
-                defs |= rd.get(nid, {}).get(ts.id, set())
-            bad = []
-            for d in defs:
-                dn = g.nodes[d]
-                if dn.kind == "entry":
-                    bad.append(f"`{ts.id}` is a parameter")
-                    continue
-                v = getattr(dn.stmt, "value", None)
-                if v is None or "get_time" not in norm(v):
-                    bad.append(f"`{ts.id}` defined by `{short(dn.stmt)}`, not a clock reading")
-                    continue
-                dheld = locks.held_lex(f, dn.stmt) | locks.must_held_on_entry().get(f.fq, frozenset())
-                if PLOCK not in dheld:
-                    bad.append(f"clock read `{short(dn.stmt)}` at line {dn.lineno} happens before Progress._lock is taken")
-            ctx.check(PLOCK in held_here and not bad, f.fq, short(x), where, f"sample timestamp `{ts.id}` read inside the lock region that appends it",
-                      "speed sample is appended under the lock but " + "; ".join(bad) + ": two racing calls can append samples out of time order, making total_time and the speed estimate negative")
-    ctx.floor(n, 2, "ProgressSample appends")
+                for t, v in g.branch_facts(nid):
+                    if v is True and norm(t) in (f"{norm(amt)} > 0", f"0 < {norm(amt)}"):
+                        ok = True
+            if not ok and isinstance(amt, ast.Name) and amt.id in f.params:
+                sites = _call_args_for_param(ctx, f, amt.id)
+                oks = []
+                for caller, c, arg in sites:
+                    if arg is None:
+                        oks.append(False)
+                        continue
+                    cgf = cfgmod.build(caller.node)
+                    cst = c
+                    while not isinstance(cst, ast.stmt):
+                        cst = caller.module.parent_of[cst]
+                    good = False
+                    for nid in cgf.nodes_of(cst):
+                        for t, v in cgf.branch_facts(nid):
+                            if v is True and norm(t) in (f"{norm(arg)} > 0", f"0 < {norm(arg)}"):
+                                good = True
+                    if not good and isinstance(arg, ast.Name):
+                        stores = [s_ for s_ in walk_local(caller.node) if isinstance(s_, (ast.Assign, ast.AugAssign)) and any(norm(t).endswith(".completed") for t in (s_.targets if isinstance(s_, ast.Assign) else [s_.target]))]
+                        dfs = [d_ for d_ in walk_local(caller.node) if isinstance(d_, ast.Assign) and norm(d_.targets[0]) == arg.id]
+                        diff = len(dfs) == 1 and isinstance(dfs[0].value, ast.BinOp) and isinstance(dfs[0].value.op, ast.Sub) and norm(dfs[0].value.left).endswith(".completed")
+                        good = diff and bool(stores) and all(isinstance(s_, ast.AugAssign) and isinstance(s_.op, ast.Add) and isinstance(s_.value, ast.Name) and s_.value.id in caller.params for s_ in stores)
+                        if not good:
+                            why = f"{caller.qualname} passes `{arg.id}`, which can be negative there (completed is also assigned directly)"
+                    oks.append(good)
+                ok = bool(oks) and all(oks)
+            elif not ok and isinstance(amt, ast.Name):
+                defs = set()
+                for nid in g.nodes_of(st):
+                    defs |= rd.get(nid, {}).get(amt.id, set())
+                if len(defs) == 1:
+                    d = g.nodes[next(iter(defs))].stmt
+                    v = getattr(d, "value", None)
+                    if isinstance(v, ast.BinOp) and isinstance(v.op, ast.Sub) and norm(v.left).endswith(".completed") and isinstance(v.right, ast.Name):
+                        stores = [s for s in walk_local(f.node) if isinstance(s, (ast.Assign, ast.AugAssign)) and any(norm(t).endswith(".completed") for t in (s.targets if isinstance(s, ast.Assign) else [s.target]))]
+                        ok = bool(stores) and all(isinstance(s, ast.AugAssign) and isinstance(s.op, ast.Add) and isinstance(s.value, ast.Name) and s.value.id in f.params for s in stores)
+                        if not ok:
+                            why = f"`{amt.id}` is a difference of completed counts but completed is also assigned directly ({[short(s) for s in stores if not isinstance(s, ast.AugAssign)]})"
+            ctx.check(ok, f.fq, short(x), where, "sample amount is provably non-negative",
+                      f"a speed sample with amount `{norm(amt)}` is appended without a `> 0` guard{'; ' + why if why else ''}: update(completed=<lower value>) records a negative sample and the speed / time-remaining estimates go negative although every advance is non-negative")
+    ctx.floor(n, 1, "ProgressSample appends")
 
 
 def _is_finish_test(n: ast.If) -> bool:
@@ -131,6 +232,13 @@ def _is_finish_test(n: ast.If) -> bool:
         if isinstance(b, ast.Assign) and norm(b.targets[0]).endswith(".finished_time") and norm(b.value).endswith(".elapsed"):
             return True
     return False
+
+
+def _always_finish_tests(h) -> bool:
+    """helper summary: every normal path through h passes the finish test."""
+    g = cfgmod.build(h.node)
+    tests = {nd.id for nd in g.stmt_nodes() if nd.kind == "test" and isinstance(nd.stmt, ast.If) and _is_finish_test(nd.stmt)}
+    return bool(tests) and g.must_pass(g.entry, tests, {g.exit}) is None
 
 
 def r12_3(ctx):
@@ -159,6 +267,12 @@ def r12_3(ctx):
             if nd.kind == "test" and isinstance(nd.stmt, ast.If) and _is_finish_test(nd.stmt):
                 if PLOCK in must_held(ctx, f, nd.stmt):
                     good.add(nd.id)
+            if nd.kind == "stmt" and nd.stmt is not None:
+                for c in ast.walk(nd.stmt):
+                    if isinstance(c, ast.Call):
+                        for callee, kind in cg.resolve_call(f, c):
+                            if callee.cls is not None and callee.cls.name == "Progress" and _always_finish_tests(callee) and PLOCK in must_held(ctx, f, c):
+                                good.add(nd.id)
             if nd.kind == "stmt" and isinstance(nd.stmt, ast.Assign) and norm(nd.stmt.targets[0]).endswith(".finished_time") and norm(nd.stmt.value) == "None":
                 good.add(nd.id)
             if nd.kind == "stmt" and isinstance(nd.stmt, ast.Expr) and isinstance(nd.stmt.value, ast.Call) and norm(nd.stmt.value.func).endswith("._reset"):
@@ -173,14 +287,18 @@ def r12_3(ctx):
     ctx.floor(n, 5, "stores to task.completed/total")
     # other writers of finished_time
     writers = []
+    extra = []
     for f in ctx.repo.all_functions():
         for x in walk_local(f.node):
             if isinstance(x, ast.Attribute) and x.attr == "finished_time" and isinstance(x.ctx, ast.Store):
                 writers.append(f.fq)
-    allowed = {"progress:Progress.update", "progress:Progress.advance", "progress:Progress.reset", "progress:Task._reset"}
-    extra = sorted(set(writers) - allowed)
+                if not (f.cls is not None and f.cls.name in ("Progress", "Task") and f.module.short == "progress"):
+                    extra.append(f.fq)
+                elif f.cls.name == "Progress" and PLOCK not in must_held(ctx, f, x):
+                    extra.append(f.fq + " (without Progress._lock)")
+    extra = sorted(set(extra))
     ctx.check(not extra, "progress:Task", "writers of finished_time", "rich/progress.py", f"finished_time written only by {sorted(set(writers))}",
-              f"finished_time is also written by {extra}")
+              f"finished_time is written outside Progress/Task or without the lock: {extra}")
     # Task._reset clears samples and finish time
     r = ctx.repo.fn("progress:Task._reset")
     src = norm(r.node)
@@ -321,4 +439,4 @@ def r12_5(ctx):
     ctx.check(ok, tf.fq, short(fw[0]) if fw else "?", tf.where, "track() forwards its sequence argument unchanged to Progress.track", "track() does not forward its `sequence` argument unchanged")
 
 
-RULES = [r12_1, r12_2, r12_3, r12_4, r12_5]
+RULES = [r12_1, r12_2, r12_3, r12_4, r12_5, r12_6]
